@@ -379,9 +379,10 @@ def _check_pgfs(EoN, pklist, evaltab, rp, probs, where):
                 break
         if obj is not None:
             where = where_
-            if obj != Pk:
-                probs.append(_problem("%s|the caller's Pk dictionary was changed|%s" % (name, where), "%s was handed %r and left %r" % (name, Pk, obj), rp))
-                break
+            # only the distribution matters here (an added zero-probability entry is C19's business, not C20's)
+            if {k: v for k, v in obj.items() if v != 0} != {k: v for k, v in Pk.items() if v != 0}:
+                probs.append(_problem("%s|the degree distribution in the caller's Pk dictionary was changed|%s" % (name, where),
+                                      "%s was handed %r and left %r" % (name, Pk, obj), rp))
     return calls
 
 
